@@ -60,6 +60,13 @@ pub struct Case {
     /// many hours pass — the repository then holds marked packs whose keep-delete time is over
     #[serde(default)]
     pub aged: Option<u16>,
+    /// with `aged`: the hours pass WITHOUT a marking prune before them — the packs are old but not
+    /// marked when the overlap starts
+    #[serde(default)]
+    pub age_unmarked: bool,
+    /// the overlapping prune command is two prune runs in a row
+    #[serde(default)]
+    pub prune_twice: bool,
 }
 
 fn strategy(ctx: &Ctx) -> BoxedStrategy<Case> {
@@ -84,10 +91,11 @@ fn strategy(ctx: &Ctx) -> BoxedStrategy<Case> {
                 prune_cfg(),
                 prop::collection::vec(any::<u16>(), 3),
                 Just(thorough),
-                prop::option::weighted(0.3, prop_oneof![Just(1u16), Just(24u16), 24u16..2000]),
+                prop::option::weighted(0.5, prop_oneof![1 => Just(1u16), 2 => Just(24u16), 5 => 24u16..2000]),
+                (any::<bool>(), prop::bool::weighted(0.5)),
             )
         })
-        .prop_map(|(cfg, tree, pre, forget, pairing, edits_a, edits_b, mut prune, js, all_j, aged)| {
+        .prop_map(|(cfg, tree, pre, forget, pairing, edits_a, edits_b, mut prune, js, all_j, aged, (age_unmarked, prune_twice))| {
             // the overlapping prune is a non-instant one whose keep-delete exceeds any backup here
             // (early-delete-index stays as generated: without instant-delete it must have no effect)
             prune.instant_delete = false;
@@ -104,6 +112,8 @@ fn strategy(ctx: &Ctx) -> BoxedStrategy<Case> {
                 js,
                 all_j,
                 aged,
+                age_unmarked,
+                prune_twice,
             }
         })
         .boxed()
@@ -113,6 +123,8 @@ fn strategy(ctx: &Ctx) -> BoxedStrategy<Case> {
 enum Cmd {
     Backup { tree: MNode, time: i64 },
     Prune(PruneCfg),
+    /// two prune runs in a row (what the first one marks must survive the second)
+    PruneTwice(PruneCfg),
 }
 
 /// Each of the two overlapping commands gets its own rayon pool. The library uses the pool of the
@@ -145,11 +157,13 @@ fn run_cmd(cmd: &Cmd, be: MemBackend, cfg: &RepoCfg) -> Result<Option<SnapshotFi
                 let repo = open_repo(be, cfg)?.to_indexed_ids().map_err(|e| estr(&e))?;
                 backup_tree(&repo, tree, &ReadSchedule::default(), &force_opts(), snap_template(*time, "host", "", "")).map(Some)
             }
-            Cmd::Prune(p) => {
-                let repo = open_repo(be, cfg)?;
-                let opts = p.options(cfg);
-                let plan = repo.prune_plan(&opts).map_err(|e| format!("prune_plan: {}", estr(&e)))?;
-                repo.prune(&opts, plan).map_err(|e| format!("prune: {}", estr(&e)))?;
+            Cmd::Prune(p) | Cmd::PruneTwice(p) => {
+                for _ in 0..(if matches!(cmd, Cmd::PruneTwice(_)) { 2 } else { 1 }) {
+                    let repo = open_repo(be.clone(), cfg)?;
+                    let opts = p.options(cfg);
+                    let plan = repo.prune_plan(&opts).map_err(|e| format!("prune_plan: {}", estr(&e)))?;
+                    repo.prune(&opts, plan).map_err(|e| format!("prune: {}", estr(&e)))?;
+                }
                 Ok(None)
             }
         }
@@ -268,12 +282,15 @@ pub fn run(c: &Case, _ctx: &Ctx) -> Outcome {
         let mut mark = c.prune.clone();
         mark.instant_delete = false;
         mark.keep_delete_23h = true;
-        for op in [HOp::Prune(mark), HOp::Age { hours }] {
+        let ops = if c.age_unmarked { vec![HOp::Age { hours }] } else { vec![HOp::Prune(mark), HOp::Age { hours }] };
+        for op in ops {
             if let Err(e) = w.step(&op) {
                 fail!("pre-state: {e}");
             }
         }
-        out = out.class_if(hours >= 24, "marked_packs_past_keep_delete_in_pre_state");
+        out = out
+            .class_if(hours >= 24 && !c.age_unmarked, "marked_packs_past_keep_delete_in_pre_state")
+            .class_if(hours >= 24 && c.age_unmarked, "unmarked_packs_older_than_keep_delete_in_pre_state");
     }
     // packs marked for deletion in the pre-state whose keep-delete time (23 h) is over
     let expired_marks: BTreeSet<Id> = if c.aged.is_some_and(|h| h >= 23) {
@@ -294,9 +311,10 @@ pub fn run(c: &Case, _ctx: &Ctx) -> Outcome {
     for e in &c.edits_b {
         _ = apply_edit(&mut tree_b, e, 5002);
     }
+    let prune_cmd = |p: PruneCfg| if c.prune_twice { Cmd::PruneTwice(p) } else { Cmd::Prune(p) };
     let (a, b) = match c.pairing {
-        Pairing::BackupPrune => (Cmd::Backup { tree: tree_a.clone(), time: w.clock + 100 }, Cmd::Prune(c.prune.clone())),
-        Pairing::PruneBackup => (Cmd::Prune(c.prune.clone()), Cmd::Backup { tree: tree_b.clone(), time: w.clock + 200 }),
+        Pairing::BackupPrune => (Cmd::Backup { tree: tree_a.clone(), time: w.clock + 100 }, prune_cmd(c.prune.clone())),
+        Pairing::PruneBackup => (prune_cmd(c.prune.clone()), Cmd::Backup { tree: tree_b.clone(), time: w.clock + 200 }),
         Pairing::BackupBackup => (
             Cmd::Backup { tree: tree_a.clone(), time: w.clock + 100 },
             Cmd::Backup { tree: tree_b.clone(), time: w.clock + 200 },
@@ -304,7 +322,7 @@ pub fn run(c: &Case, _ctx: &Ctx) -> Outcome {
     };
     let model_of = |cmd: &Cmd| match cmd {
         Cmd::Backup { tree, .. } => Some(Arc::new(flatten(tree))),
-        Cmd::Prune(_) => None,
+        Cmd::Prune(_) | Cmd::PruneTwice(_) => None,
     };
     // number of backend calls of B when run alone (to scale the generated j positions)
     let n_b = {
